@@ -3,7 +3,7 @@ CONFIG = {
     "coq_dirs": ["theories/Dir"],
     "coq_targets": ["theories/Dir/Properties.vo", "theories/Dir/Corr.vo"],
     "properties_files": ["theories/Dir/Properties.v"],
-    "required_theorems": [],
+    "required_theorems": ["trace_ok_model", "trace_ok_refuted", "dir_refines", "changeid_strict", "readdir_complete", "reachable_well_formed"],
     "harnesses": [
         {"cmd": "dir", "cases_quick": 320, "cases_thorough": 12000, "shards_quick": 8, "shards_thorough": 32},
     ],
